@@ -115,12 +115,15 @@ def k2_contexts(tier):
             for R in (False, True):
                 out.append(_c("B DF%d CA%d R%d" % (df, ca, R), 28, df_fixed(df), R=R, CA=ca, caps=ALL_CAPS, tags=("B", "gate", "df%d" % df, "ca%d" % ca)))
     # register advertisement: one flag off at a time (CA 4, strict)
+    # (bit 39 = 0: the frame itself is not a BDS1,7 report, so the row's flags are the ones recorded before)
+    not17 = df_fixed(20)
+    not17[39] = 0
     for off in ("bds40", "bds50", "bds60"):
         caps = dict(ALL_CAPS)
         caps[off] = False
-        out.append(_c("B DF20 CA4 R0 no-%s" % off, 28, df_fixed(20), R=False, CA=4, caps=caps, tags=("B", "adv", "no-" + off)))
-        out.append(_c("B DF20 CA4 R1 no-%s" % off, 28, df_fixed(20), R=True, CA=4, caps=caps, tags=("B", "adv-relaxed", "no-" + off)))
-    out.append(_c("B DF20 CA4 R0 nocaps", 28, df_fixed(20), R=False, CA=4, caps=NO_CAPS, tags=("B", "adv", "nocaps")))
+        out.append(_c("B DF20 CA4 R0 no-%s" % off, 28, not17, R=False, CA=4, caps=caps, tags=("B", "adv", "no-" + off)))
+        out.append(_c("B DF20 CA4 R1 no-%s" % off, 28, not17, R=True, CA=4, caps=caps, tags=("B", "adv-relaxed", "no-" + off)))
+    out.append(_c("B DF20 CA4 R0 nocaps", 28, not17, R=False, CA=4, caps=NO_CAPS, tags=("B", "adv", "nocaps")))
     # forced-valid registers (status bits 1, reserved 0) with only that register advertised
     regs = register_specs()
     for rname, spec in regs.items():
@@ -154,6 +157,13 @@ def k2_contexts(tier):
             fx = dict(base)
             fx[b] = 1
             out.append(_c("B %s reserved%d=1" % (rname, b), 28, fx, R=True, CA=4, caps=ALL_CAPS, tags=("B", "invalid", rname, "reserved%d" % b)))
+    # precedence: a field that satisfies both the 1,7 and the 4,0 rules must be taken as 1,7
+    fx = df_fixed(20)
+    for b in (33, 39, 46, 47, 59, 60):
+        fx[b] = 1
+    for b in range(61, 89):
+        fx[b] = 0
+    out.append(_c("B prec 1,7 over 4,0", 28, fx, R=True, CA=4, caps=ALL_CAPS, tags=("B", "prec", "bds17>bds40")))
     # BDS 2,0 / 3,0 by selector
     for sel, nm in ((0x20, "bds20"), (0x30, "bds30"), (0x10, "bds10")):
         fx = field_bits(df_fixed(20), 33, 40, sel)
